@@ -6,6 +6,7 @@ import (
 	"encoding/json"
 	"flag"
 	"fmt"
+	"github.com/benoitkugler/webrender/html/boxes"
 	"math"
 	"math/rand"
 	"os"
@@ -223,6 +224,7 @@ func c04Main(args []string) int {
 		case "meta":
 			if c04Setup(out) {
 				c04Pinned(out)
+				c04AfterBoxes(out)
 			}
 		case "kinds":
 			if c04Setup(out) {
@@ -585,6 +587,73 @@ func c04Dependent(s *defScn, line []byte, out *drv.Out) {
 			if v.S != "" || math.Abs(got-float64(d.Want381)) > 0.5 {
 				out.Disagree("dependent:bleed:"+d.M, fmt.Sprintf("@page{marks:%s;bleed:auto} -> computed bleed-%s %v%s, CSS Paged Media requires %gpx", d.M, side, v.Value, v.S, float64(d.Want381)/381), map[string]interface{}{"doc": doc, "scenario": json.RawMessage(line)})
 				break
+			}
+		}
+	}
+}
+
+// c04AfterBoxes: `inherit` gives the parent ELEMENT's computed value also after the formatting structure has been built
+// (box building copies and edits styles: a table element is split into a wrapper and a table box, anonymous boxes get
+// derived styles). For every property with an explicit value: body{display:table; prop: explicit} p{prop: inherit};
+// the style of p's box after layout must hold the value computed for body before any box existed.
+func c04AfterBoxes(out *drv.Out) {
+	for k := pr.KnownProp(1); k < pr.NbProperties; k++ {
+		exp := c04Explicit[k]
+		name := k.String()
+		if exp == "" || name == "display" || name == "float" || name == "position" {
+			continue
+		}
+		for _, disp := range []string{"table", "inline-table", "list-item", "flex"} {
+			doc := `<html><head></head><body style='display:` + disp + `;` + name + `:` + exp + `'><p style='` + name + `:inherit'>x</p></body></html>`
+			// (with the small test user-agent sheet: an empty one leaves the page without the values layout needs)
+			h, sf, err := drv.Styles(doc, &drv.Opts{Files: map[string]string{"http://verif.test/i.png": "x"}})
+			if err != nil {
+				continue
+			}
+			want := ""
+			it := h.Root.Iter()
+			for it.HasNext() {
+				if e := it.Next(); e.DataAtom == atom.Body {
+					if st := sf.Get(e, ""); st != nil {
+						if v := st.Get(pr.PropKey{KnownProp: k}); v != nil {
+							want = fmt.Sprintf("%T:%v", v, v)
+						}
+					}
+				}
+			}
+			if want == "" {
+				continue
+			}
+			var got string
+			site, msg, panicked := drv.Guard(func() {
+				pages, err := drv.Layout(doc, &drv.Opts{Files: map[string]string{"http://verif.test/i.png": "x"}})
+				if err != nil {
+					return
+				}
+				for _, pg := range pages {
+					drv.Walk(pg, func(bx boxes.Box, _ int) bool {
+						f := bx.Box()
+						if got == "" && f.Element != nil && f.Element.Data == "p" && f.Style != nil {
+							if v := f.Style.Get(pr.PropKey{KnownProp: k}); v != nil {
+								got = fmt.Sprintf("%T:%v", v, v)
+							}
+						}
+						return got == ""
+					})
+				}
+			})
+			if panicked {
+				// (no computed value can be read at all: the styles handed to the layout are unusable)
+				out.Disagree("after-boxes:panic:"+site, fmt.Sprintf("body{display:%s;%s:%s} p{%s:inherit}: layout panics (%s)", disp, name, exp, name, msg), map[string]interface{}{"doc": doc, "property": name})
+				continue
+			}
+			if got == "" {
+				continue // (an element without box has nothing to compare)
+			}
+			out.Count("after-boxes")
+			if got != want {
+				out.Disagree("after-boxes:inherit-through:"+disp, fmt.Sprintf("body{display:%s;%s:%s} p{%s:inherit}: the box of p holds %s, the value computed for body is %s", disp, name, exp, name, got, want),
+					map[string]interface{}{"doc": doc, "property": name})
 			}
 		}
 	}
